@@ -11,6 +11,7 @@ mod c04;
 mod c05;
 mod c06;
 mod c11;
+mod c10;
 
 use common::Tier;
 
@@ -32,6 +33,7 @@ fn main() {
         "C05" => c05::run(tier),
         "C06" => c06::run(tier),
         "C11" => c11::run(tier),
+        "C10" => c10::run(tier),
         "bind" => { let r = samples::bind_or_die(); println!("rsig ok {} rejected {} ; rdl validations {} exec-error {} skipped {:?}", r.rsig_accepted, r.rsig_rejected, r.rdl_validations, r.rdl_exec_error_validations, r.rdl_skipped); }
         other => {
             eprintln!("unknown property {other}");
